@@ -142,7 +142,13 @@ def line_schedules(max_k):
     import replay.sched as sched
 
     def make():
-        d = S.Daemon(host="127.0.0.1", port=0)
+        from Pyro5 import config
+        saved = config.SERVERTYPE
+        config.SERVERTYPE = "multiplex"          # (no thread pool to wind down when the daemon is closed; the transport is not used here)
+        try:
+            d = S.Daemon(host="127.0.0.1", port=0)
+        finally:
+            config.SERVERTYPE = saved
         made = []
 
         class Single:
